@@ -2,6 +2,7 @@
 import ast
 from ..core import Result
 from ..pm import AnalysisError, unparse
+from ..match import Code
 
 META = {
     'explanation': (
@@ -83,7 +84,7 @@ def dispatch(ctx):
         res.saw(m)
         if kw in expect:
             key, form = expect[kw]
-            src = unparse(m.node, 4000)
+            src = Code(P, m)
             stores = {}
             for n in ast.walk(m.node):
                 if isinstance(n, ast.Assign) and isinstance(n.targets[0],
@@ -154,7 +155,7 @@ def dispatch(ctx):
         res.fail(ctx.finding('ZMX-DISPATCH', m, m.node,
                              f'field type codes mapped as {codes}',
                              construct='FTYP codes'))
-    src = unparse(m.node, 5000)
+    src = Code(P, m)
     if "['num_fields'] = int(data[3])" in src and \
             "['num_wavelengths'] = int(data[4])" in src:
         res.ok('FTYP: num_fields <- token 3, num_wavelengths <- token 4')
@@ -164,7 +165,7 @@ def dispatch(ctx):
                              'token', construct='FTYP counts'))
     for mn, key in (('_read_x_fields', 'x'), ('_read_y_fields', 'y')):
         mm = c.methods[mn]
-        s2 = unparse(mm.node, 2000)
+        s2 = Code(P, mm)
         if f"['fields']['{key}'] = [float(value) for value in " \
                 f"data[1:num_fields + 1]]" in s2:
             res.ok(f'{mn}: {key} <- tokens 1..num_fields')
@@ -241,7 +242,7 @@ def keys_and_wiring(ctx):
                                  f'surface without that keyword raises '
                                  f'KeyError in the converter',
                                  construct=f'SURF default {k!r}'))
-    src = unparse(sh.node, 3000)
+    src = Code(P, sh)
     if "self.data['surfaces'][self._current_surf] = self._current_surf_data" \
             in src and 'self._current_surf += 1' in src and \
             'self._current_surf >= 0' in src:
@@ -253,7 +254,7 @@ def keys_and_wiring(ctx):
                              'indices', construct='SURF bookkeeping'))
     # image surface appended after the stored ones
     cfs = cv.methods['_configure_surfaces']
-    s2 = unparse(cfs.node, 2000)
+    s2 = Code(P, cfs)
     if "self.optic.add_surface(index=len(self.data['surfaces']))" in s2 and \
             "for idx, surf_data in self.data['surfaces'].items()" in s2 and \
             'self._configure_surface(idx, surf_data)' in s2:
@@ -264,7 +265,7 @@ def keys_and_wiring(ctx):
                              construct='_configure_surfaces'))
     # aperture / fields / wavelengths
     ca = cv.methods['_configure_aperture']
-    s3 = unparse(ca.node, 2000)
+    s3 = Code(P, ca)
     if 'set_aperture(aperture_type=ap_type, value=value)' in s3 and \
             "next(iter(aperture_data.items()))" in s3:
         res.ok('aperture: first stored (kind, value) -> set_aperture')
@@ -273,7 +274,7 @@ def keys_and_wiring(ctx):
                              'aperture kind / value not forwarded',
                              construct='_configure_aperture'))
     cf = cv.methods['_configure_fields']
-    s4 = unparse(cf.node, 2000)
+    s4 = Code(P, cf)
     if "set_field_type(field_type=self.data['fields']['type'])" in s4 and \
             "zip(self.data['fields']['x'], self.data['fields']['y'])" in s4 \
             and 'add_field(x=fx, y=fy)' in s4:
@@ -283,7 +284,7 @@ def keys_and_wiring(ctx):
                              'field type / coordinates not forwarded in order',
                              construct='_configure_fields'))
     cw = cv.methods['_configure_wavelengths']
-    s5 = unparse(cw.node, 2000)
+    s5 = Code(P, cw)
     if "primary_idx = self.data['wavelengths']['primary_index']" in s5 and \
             "enumerate(self.data['wavelengths']['data'])" in s5 and \
             'add_wavelength(value=value, is_primary=idx == primary_idx)' in s5:
@@ -312,7 +313,7 @@ def keys_and_wiring(ctx):
         res.ok('field type set before fields are added')
     # wavelength reader: token 2, bounded by num_wavelengths
     wv = r.methods['_read_wavelength']
-    s6 = unparse(wv.node, 2000)
+    s6 = Code(P, wv)
     if 'float(data[2])' in s6 and '< num_wavelengths' in s6 and \
             ".append(value)" in s6:
         res.ok('WAVM: token 2 appended while fewer than num_wavelengths')
@@ -408,18 +409,18 @@ def parm_offset(ctx):
     res = Result('PARM-OFFSET', 'PARM n -> key param_(n-1) -> coefficient '
                  'index n-1 -> term c[i] r^(2(i+1)) = r^(2n)')
     r = _cls(P, 'ZemaxFileReader').methods['_read_surface_parameter']
-    s = unparse(r.node, 2000)
+    s = Code(P, r)
     ok1 = "f'param_{int(data[1]) - 1}'" in s and 'float(data[2])' in s
     cv = _cls(P, 'ZemaxToOpticConverter').methods[
         '_configure_surface_coefficients']
-    s2 = unparse(cv.node, 2000)
+    s2 = Code(P, cv)
     ok2 = 'for k in range(8)' in s2 and "coefficients.append(data[f'param_{k}'])" \
         in s2
     sag = P.func('EvenAsphere.sag')
-    s3 = unparse(sag.node, 2000)
+    s3 = Code(P, sag)
     ok3 = 'for i, Ci in enumerate(self.c)' in s3 and 'Ci * r2 ** (i + 1)' in s3
     fac = P.func('SurfaceFactory._configure_even_asphere_geometry')
-    s4 = unparse(fac.node, 2000)
+    s4 = Code(P, fac)
     ok4 = "coefficients = kwargs.get('coefficients', [])" in s4 and \
         'EvenAsphere(cs, radius, conic, tol, max_iter, coefficients)' in s4
     for name, ok, f in (('reader: PARM n -> param_(n-1) := float(token 2)',
@@ -447,7 +448,7 @@ def mode_raises(ctx):
     c = _cls(P, 'ZemaxFileReader')
     m = c.methods['_read_mode']
     res.saw(m)
-    src = unparse(m.node, 999)
+    src = Code(P, m)
     if "data[1] != 'SEQ'" in src and 'raise ValueError' in src:
         res.ok("MODE != SEQ raises ValueError")
     else:
@@ -512,7 +513,7 @@ def mode_raises(ctx):
         res.fail(ctx.finding('MODE-RAISES', rf, rf.node,
                              f'encodings tried: {encs}',
                              construct='encodings'))
-    s = unparse(rf.node, 6000)
+    s = Code(P, rf)
     if 'encoding=encoding' in s and 'for encoding in encodings' in s:
         res.ok('each encoding is used to open the file')
     else:
@@ -543,7 +544,7 @@ def glass(ctx):
                  'written in the file (tokens 4 and 5)')
     m = _cls(P, 'ZemaxFileReader').methods['_read_glass']
     res.saw(m)
-    s = unparse(m.node, 5000)
+    s = Code(P, m)
     checks = [
         ("['index'] = float(data[4])" in s, 'index <- token 4'),
         ("['abbe'] = float(data[5])" in s, 'abbe <- token 5'),
